@@ -7,7 +7,7 @@ def check(ctx, rep):
     rep.explanation = (
         "R09.1 confinement: the `forever` attribute influences no start condition, no candidate set and no "
         "wait argument. R09.2 both sides of the completion test count non-forever jobs only. R09.3 the "
-        "success exit cancels and awaits what is still pending (EXIT automaton), then shuts down. R09.6 the `forever` flag is what the caller gave.")
+        "success exit cancels and awaits what is still pending (EXIT automaton), then shuts down. R09.6 the `forever` flag is what the caller gave. R09.7 (= R01.7) e.g. `forever=` of a nested scheduler.")
     rep.declined = ["instants"]
     rep.trusted = ["T1", "T3"]
     runrules.forever_confined(ctx, rep, "R09.1")
@@ -17,3 +17,4 @@ def check(ctx, rep):
     shutrules.cancellation_edges(ctx, rep, "R09.4")
     common.wrap_typestate(ctx, rep, "R09.5")
     predicates.config_verbatim(ctx, rep, "R09.6", ('forever',))
+    predicates.constructor_forwarding(ctx, rep, "R09.7")
